@@ -35,7 +35,7 @@ func init() {
 		},
 		NumCases: func(tier, variant string) int {
 			if tier == "thorough" {
-				return 640
+				return 6400
 			}
 			return 64
 		},
@@ -524,9 +524,6 @@ func run(c *fw.Case) {
 	}
 	time.Local = loc
 	nAbs, nRel, nRange := 3000, 150, 150
-	if c.Tier == "thorough" {
-		nAbs, nRel, nRange = 30000, 600, 600
-	}
 	cache := map[int][]int64{}
 	var good []absText
 	c.Note("absolute texts, TZ=%s", zone)
